@@ -30,6 +30,15 @@ from collections import Counter
 VERIF = os.path.dirname(os.path.dirname(os.path.abspath(__file__)))
 PY = os.environ.get("VERIF_PY", "/venv/bin/python")
 NPROC = int(os.environ.get("VERIF_JOBS", "16"))
+# Coverage floors (evaluations, distinct buckets) of the thorough tiers, calibrated on the sweep of 2026-09-22: about half of
+# what each tier produced with a 600 s per-shard budget on a machine loaded by other jobs (default budget: 900 s). A module's
+# own FLOORS["thorough"] applies where it is not listed here.
+THOROUGH_FLOORS = {
+    "C01": (6000, 300), "C02": (4500, 200), "C03": (4500, 150), "C04": (2000, 150), "C05": (2000, 80), "C06": (600, 250),
+    "C07": (2000, 60), "C10": (2500, 25), "C12": (4000, 15), "C13": (3000, 150), "C14": (500, 15), "C15": (150, 60),
+    "C16": (2500, 80), "C17": (1500, 20), "C18": (600, 80), "C19": (2500, 120), "C20": (3500, 120), "C21": (250, 150),
+    "C26": (3000, 90), "C28": (1000, 80), "C32": (800, 60), "C33": (2000, 40),
+}
 
 
 def load_known():
@@ -235,7 +244,7 @@ def _check(mod, pid, tier, seed, scratch, t0):
         lines.append(f"  mechanism={mech} what={str(r.get('what'))[:300]}")
 
     evals = held + viol
-    fe, fd = mod.FLOORS[tier]
+    fe, fd = THOROUGH_FLOORS.get(pid, mod.FLOORS[tier]) if tier == "thorough" else mod.FLOORS[tier]
     inconclusive = []
     if evals < fe:
         inconclusive.append(f"evaluations {evals} < floor {fe}")
